@@ -113,10 +113,12 @@ AckRev0 ==  /\ Ackable # {} /\ "rev0" \in Proofs
             /\ \E p \in {Pick(Ackable)} : \E k \in {Pick(GoodAckHeights(p))} : \E s \in {Pick(Signers)} :
                   Ack(p.src, p, WrittenCode(p), "none", "none", k, "rev0", s)
 
+RotateR == WithRotate /\ \E c \in {Pick(Chains)} : \E d \in {Pick(Chains \ {c})} : Rotate(c, d)
+
 RetoggleR == \E c \in {Pick(Chains)} : \E d \in {Pick(Chains \ {c})} : Retoggle(c, d)
 
 Useful  == CommitUseful \/ UpdateUseful \/ RecvUseful \/ AckUseful \/ SendR \/ SendBackR \/ SendViaR \/ SendBadCbR \/ SendTwoR
-Hostile == SendR \/ CommitR \/ UpdateR \/ RecvGood \/ RecvR \/ RecvDup \/ AckGood \/ AckR \/ RecvForged \/ AckForged \/ AckForgedCode \/ AckDup \/ RetoggleR \/ RecvRev0 \/ AckRev0
+Hostile == SendR \/ CommitR \/ UpdateR \/ RecvGood \/ RecvR \/ RecvDup \/ AckGood \/ AckR \/ RecvForged \/ AckForged \/ AckForgedCode \/ AckDup \/ RetoggleR \/ RecvRev0 \/ AckRev0 \/ RotateR
 
 MInit == Init /\ hist = << >>
 
